@@ -147,7 +147,7 @@ func (r *Reporter) Journal(s string) {
 // de-duplication and known-finding matching.
 func (r *Reporter) Violation(key string, c any, msg string) {
 	r.vkeys[key]++
-	if r.vkeys[key] > 3 || len(r.res.Violations) > 200 {
+	if r.vkeys[key] > 2 || len(r.res.Violations) > 20000 {
 		r.res.Counters["violations_suppressed_dups"]++
 		return
 	}
@@ -506,6 +506,18 @@ func parentMain(c *Check, tier string, only string) int {
 		shards = []string{only}
 	}
 	dl := c.Deadline[tier]
+	if dl == 0 {
+		// default internal deadlines: enumeration stops cleanly and the run reports exhaustive:false
+		dl = 5 * time.Minute
+		if tier == "thorough" {
+			dl = 25 * time.Minute
+		}
+	}
+	if s := os.Getenv("VERIF_DEADLINE_S"); s != "" {
+		if v, err := strconv.Atoi(s); err == nil {
+			dl = time.Duration(v) * time.Second
+		}
+	}
 	var deadline time.Time
 	if dl > 0 {
 		deadline = start.Add(dl)
@@ -616,7 +628,12 @@ func parentMain(c *Check, tier string, only string) int {
 	nviol := 0
 	nknown := 0
 	var vlines []string
-	sort.SliceStable(viols, func(i, j int) bool { return viols[i].Key < viols[j].Key })
+	sort.SliceStable(viols, func(i, j int) bool {
+		if viols[i].Key != viols[j].Key {
+			return viols[i].Key < viols[j].Key
+		}
+		return len(viols[i].Case) < len(viols[j].Case)
+	})
 	knownSeen := map[string]int{}
 	for _, v := range viols {
 		if f, ok := known[v.Key]; ok {
